@@ -92,6 +92,32 @@ class HideNestedTransitions(Transform):
                 node.replace_self(pending)
 
 
+class _RestoreBlockQuote(Transform):
+    """Put back a block quote hidden by ``HideEmptyBlockQuotes``."""
+
+    default_priority = 211  # directly after sphinx.transforms.HandleCodeBlocks
+
+    def apply(self, **kwargs: t.Any) -> None:
+        self.startnode.replace_self(self.startnode.details["block_quote"])
+
+
+class HideEmptyBlockQuotes(Transform):
+    """Hide block quotes without children (a lone ``>``, or a directive body of only
+    a definition) that carry ids, names or classes, from sphinx's ``HandleCodeBlocks``:
+    it replaces a block quote of only doctest blocks (so also an empty one) by its
+    children, and docutils asserts that this does not lose any attributes.
+    """
+
+    default_priority = 209  # directly before sphinx.transforms.HandleCodeBlocks
+
+    def apply(self, **kwargs: t.Any) -> None:
+        for node in list(findall(self.document)(nodes.block_quote)):
+            if not node.children and any(node[att] for att in node.basic_attributes):
+                pending = nodes.pending(_RestoreBlockQuote, {"block_quote": node})
+                self.document.note_pending(pending)
+                node.replace_self(pending)
+
+
 class CleanDocumentTitle(Transform):
     """Keep warnings inside the promoted document title out of the document's ``title`` attribute.
 
